@@ -174,8 +174,8 @@ def section_truncations():
                     fail('D', '%s cut %d/%d expect_accept=%r got %r' % (fmt, len(t.data), len(img.data), t.expect_accept, v))
                 if t.wellformed and t.declared_size is not None and fmt != 'qed' and v[3] != t.declared_size:
                     fail('D', '%s cut %d/%d declared %r got %r' % (fmt, len(t.data), len(img.data), t.declared_size, v))
-                if not t.wellformed and t.expect_accept is False and fmt in ('qcow2', 'vhd', 'vhdx', 'vmdk', 'vdi', 'iso') \
-                        and v[3] != 0:
+                if fmt in ('qcow2', 'vhd', 'vhdx', 'vmdk', 'vdi', 'iso') and v[3] != 0 \
+                        and len(t.data) < img.traits['size_known_at']:
                     fail('D', '%s cut %d/%d: size %r reported before the structure is complete' % (fmt, len(t.data), len(img.data), v[3]))
             e = ib.extend(img, rng.choice([1, 512, 5000]), rng)
             v, _ = verdict(fmt, e.data, None)
